@@ -12,6 +12,7 @@ import (
 	"go/token"
 	"go/types"
 	"reflect"
+	"regexp"
 	"sort"
 	"strconv"
 	"strings"
@@ -606,8 +607,87 @@ func selfCallLemmas(prog *Program) []*lemmaQuery {
 	return out
 }
 
+// bodyNameLemmas: the HTTP handlers decode request bodies into per-handler structs by json tag; a tag that names
+// another key silently ignores what the client sent. The API's keys are the field names in lower camel case (the one
+// exception is Description, "desc"), compared without regard to letter case as encoding/json does when it decodes; one
+// obligation per tagged field of the http package.
+func bodyNameLemmas(prog *Program) []*lemmaQuery {
+	except := map[string]string{"Description": "desc"}
+	var out []*lemmaQuery
+	pkg := "internal/app/subsystems/api/http"
+	pp := prog.ppkg[repoModule+"/"+pkg]
+	if pp == nil || pp.Types == nil {
+		return []*lemmaQuery{structural("the http package is loaded", pkg, false, "package not found")}
+	}
+	scope := pp.Types.Scope()
+	for _, name := range scope.Names() {
+		tn, ok := scope.Lookup(name).(*types.TypeName)
+		if !ok {
+			continue
+		}
+		st, ok := tn.Type().Underlying().(*types.Struct)
+		if !ok {
+			continue
+		}
+		for i := 0; i < st.NumFields(); i++ {
+			js, has := reflect.StructTag(st.Tag(i)).Lookup("json")
+			if !has || js == "-" {
+				continue
+			}
+			f := st.Field(i).Name()
+			want := strings.ToLower(f[:1]) + f[1:]
+			if e, ok := except[f]; ok {
+				want = e
+			}
+			got := strings.Split(js, ",")[0]
+			out = append(out, structural(fmt.Sprintf("%s.%s is read from the JSON key %q of the request body", name, f, want), pkg+":"+name+"."+f, strings.EqualFold(got, want), st.Tag(i)))
+		}
+	}
+	return out
+}
+
+// scriptLemmas: the start-up script is run on every start against the database of the previous life, so every
+// CREATE in it must be conditional (IF NOT EXISTS) - otherwise the second start fails and the acknowledged data
+// is out of reach; and the Postgres reset script drops every table the start-up script creates.
+func scriptLemmas(prog *Program) []*lemmaQuery {
+	var out []*lemmaQuery
+	createRe := regexp.MustCompile(`(?i)\bCREATE\s+(UNIQUE\s+)?(TABLE|INDEX)\s+(IF\s+NOT\s+EXISTS\s+)?([A-Za-z_][A-Za-z0-9_]*)`)
+	for _, be := range []string{"sqlite", "postgres"} {
+		pkg := repoModule + "/internal/app/subsystems/aio/store/" + be
+		where := "internal/app/subsystems/aio/store/" + be + ":CREATE_TABLE_STATEMENT"
+		text, ok := prog.constString(pkg, "CREATE_TABLE_STATEMENT")
+		if !ok {
+			out = append(out, structural("the start-up script of the "+be+" store exists", where, false, "constant not found"))
+			continue
+		}
+		var tables []string
+		for _, m := range createRe.FindAllStringSubmatch(text, -1) {
+			out = append(out, structural(fmt.Sprintf("%s store: CREATE %s %s of the start-up script is conditional (IF NOT EXISTS): the script runs on every start", be, strings.ToUpper(m[2]), m[4]), where, m[3] != "", m[0]))
+			if strings.EqualFold(m[2], "table") {
+				tables = append(tables, m[4])
+			}
+		}
+		if be == "postgres" {
+			drop, ok := prog.constString(pkg, "DROP_TABLE_STATEMENT")
+			for _, t := range tables {
+				has := ok && regexp.MustCompile(`(?i)\bDROP\s+TABLE\s+(IF\s+EXISTS\s+)?`+t+`\b`).MatchString(drop)
+				out = append(out, structural(fmt.Sprintf("postgres store: the reset script drops table %s (a reset store starts empty, like the SQLite store whose file is removed)", t), "internal/app/subsystems/aio/store/postgres:DROP_TABLE_STATEMENT", has, drop))
+			}
+		}
+	}
+	return out
+}
+
 func extraObligations(prog *Program, prop, tier string) []*lemmaQuery {
 	out := extraObligations0(prog, prop, tier)
+	switch prop {
+	case "C03", "C10", "C15", "C20":
+		out = append(out, bodyNameLemmas(prog)...)
+	}
+	switch prop {
+	case "C06", "C17", "C01", "C05", "C08", "C09", "C10", "C20":
+		out = append(out, scriptLemmas(prog)...)
+	}
 	switch prop {
 	case "C12", "C13":
 		out = append(out, selfCallLemmas(prog)...)
